@@ -354,7 +354,7 @@ def main(fn):
 # --------------------------------------------------------------------------
 
 def validate_trace(module, cfg, trace_path, shards=4, heap="3g", timeout=1800, workers=4,
-                   trace_name="trace.ndjson"):
+                   trace_name="trace.ndjson", extra_data=None):
     """Validate an ndjson trace against spec/<module>.tla.  The trace spec explores
     one state per event (+ root) and prints {"reject": n, ...} for every event its
     Accept predicate rejects.  Returns (results, rejects) where rejects are 0-based
@@ -373,7 +373,7 @@ def validate_trace(module, cfg, trace_path, shards=4, heap="3g", timeout=1800, w
         p = os.path.join(scratch(), "shard-%s-%d-%d.ndjson" % (module, os.getpid(), s))
         with open(p, "w") as f:
             f.write("\n".join(lines[i] for i in idx) + "\n")
-        jobs.append(dict(module=module, cfg=cfg, data={trace_name: p}, heap=heap,
+        jobs.append(dict(module=module, cfg=cfg, data=dict(extra_data or {}, **{trace_name: p}), heap=heap,
                          timeout=timeout, workers=workers))
         maps.append(idx)
     results = tlc_parallel(jobs, max_procs=min(len(jobs), max(1, NCPU // 2)))
